@@ -1806,3 +1806,137 @@ def char_from_u8(I, a, n):
     if is_sym(v) and v.size() < 32:
         return z3.ZeroExt(32 - v.size(), v)
     return v
+
+
+# =============================================================================== integers
+INT = r"(usize|u8|u16|u32|u64|u128|isize|i8|i16|i32|i64|i128)"
+
+
+def _int_ty(n):
+    m = re.search(r"\b" + INT + r"\b", n)
+    return m.group(1) if m else "usize"
+
+
+@model(r"^<" + INT + r" as std::cmp::Ord>::(max|min)$|^core::cmp::(max|min)$|^std::cmp::(max|min)$")
+def int_minmax(I, a, n):
+    ty = _int_ty(n)
+    x, y = deref(a[0]), deref(a[1])
+    le = I.binop("Le", x, y, ty)
+    op = meth(n)
+    if is_sym(le):
+        X = x if is_sym(x) else z3.BitVecVal(x, y.size())
+        Y = y if is_sym(y) else z3.BitVecVal(y, x.size())
+        return z3.If(le, Y, X) if op == "max" else z3.If(le, X, Y)
+    return (y if le else x) if op == "max" else (x if le else y)
+
+
+@model(r"^<" + INT + r" as std::cmp::Ord>::clamp$")
+def int_clamp(I, a, n):
+    ty = _int_ty(n)
+    x = int_minmax(I, [a[0], a[1]], n.replace("clamp", "max"))
+    return int_minmax(I, [x, a[2]], n.replace("clamp", "min"))
+
+
+@model(r"^core::num::(saturating_sub|saturating_add|wrapping_sub|wrapping_add|wrapping_mul|checked_sub|checked_add|checked_mul|abs_diff|pow|is_power_of_two|count_ones|leading_zeros|trailing_zeros|wrapping_neg|unsigned_abs|abs|signum|rem_euclid|div_euclid|min|max|overflowing_add|overflowing_sub|is_multiple_of)$")
+def int_ops(I, a, n):
+    from .mirparse import INT_TYPES
+    op = meth(n)
+    m = re.search(r"<impl " + INT + r">", n)
+    ty = m.group(1) if m else "usize"
+    w, signed = INT_TYPES[ty]
+    x = deref(a[0])
+    y = deref(a[1]) if len(a) > 1 else None
+    if op in ("min", "max"):
+        return int_minmax(I, [x, y], "<%s as std::cmp::Ord>::%s" % (ty, op))
+    if op in ("checked_sub", "checked_add", "checked_mul"):
+        r, ov = I.binop({"checked_sub": "SubWithOverflow", "checked_add": "AddWithOverflow", "checked_mul": "MulWithOverflow"}[op], x, y, ty)
+        return NONE() if I.branch_bool(ov) else SOME(r)
+    if op in ("overflowing_add", "overflowing_sub"):
+        return I.binop({"overflowing_sub": "SubWithOverflow", "overflowing_add": "AddWithOverflow"}[op], x, y, ty)
+    if op in ("saturating_sub", "saturating_add"):
+        r, ov = I.binop("SubWithOverflow" if op == "saturating_sub" else "AddWithOverflow", x, y, ty)
+        if not I.branch_bool(ov):
+            return r
+        if signed:
+            raise Unsupported("signed saturating arithmetic overflow")
+        return 0 if op == "saturating_sub" else MASK[w]
+    if op in ("wrapping_sub", "wrapping_add", "wrapping_mul"):
+        return I.binop({"wrapping_sub": "Sub", "wrapping_add": "Add", "wrapping_mul": "Mul"}[op], x, y, ty)
+    if op == "abs_diff":
+        if I.branch_bool(I.binop("Ge", x, y, ty)):
+            return I.binop("Sub", x, y, ty)
+        return I.binop("Sub", y, x, ty)
+    if op == "wrapping_neg":
+        return I.binop("Sub", 0, x, ty)
+    if is_sym(x) or (y is not None and is_sym(y)):
+        raise Unsupported("integer op %s on symbolic value" % op)
+    if op == "pow":
+        return I.binop("Mul", x ** y, 1, ty)
+    if op == "is_power_of_two":
+        return x > 0 and (x & (x - 1)) == 0
+    if op == "count_ones":
+        return bin(x & MASK[w]).count("1")
+    if op in ("abs", "unsigned_abs"):
+        return abs(x)
+    if op == "signum":
+        return (x > 0) - (x < 0)
+    if op == "rem_euclid":
+        if y == 0:
+            raise Panic("attempt to calculate the remainder with a divisor of zero")
+        return x % abs(y)
+    if op == "div_euclid":
+        if y == 0:
+            raise Panic("attempt to divide by zero")
+        q = x // y if y > 0 else -(x // -y)
+        return q
+    if op == "is_multiple_of":
+        return (x == 0) if y == 0 else (x % y == 0)
+    if op == "leading_zeros":
+        return w - (x & MASK[w]).bit_length()
+    if op == "trailing_zeros":
+        v = x & MASK[w]
+        return w if v == 0 else (v & -v).bit_length() - 1
+    raise Unsupported("integer op " + op)
+
+
+@model(r"^<" + INT + r" as std::convert::(From|Into|TryFrom|TryInto)>::(from|into|try_from|try_into)$")
+def int_conv(I, a, n):
+    from .mirparse import INT_TYPES
+    op = meth(n)
+    g = re.match(r"^<(\w+) as std::convert::(\w+)<(\w+)>>", n)
+    x = deref(a[0])
+    if not g:
+        return x if op in ("from", "into") else OK(x)
+    self_ty, tr, other = g.group(1), g.group(2), g.group(3)
+    src, dst = (other, self_ty) if tr in ("From", "TryFrom") else (self_ty, other)
+    if dst not in INT_TYPES or src not in INT_TYPES:
+        raise Unsupported("conversion " + n)
+    w, signed = INT_TYPES[dst]
+    if op in ("from", "into"):
+        return I.cast(x, dst, "IntToInt", src)
+    if is_sym(x):
+        raise Unsupported("try_from on symbolic integer")
+    lo, hi = (-(1 << (w - 1)), (1 << (w - 1)) - 1) if signed else (0, MASK[w])
+    return OK(x) if lo <= x <= hi else ERR(Opaque("TryFromIntError"))
+
+
+@model(r"^<" + INT + r" as std::default::Default>::default$")
+def int_default(I, a, n):
+    return 0
+
+
+@model(r"^<" + INT + r" as std::ops::(Add|Sub|Mul|AddAssign|SubAssign)>::(add|sub|mul|add_assign|sub_assign)$")
+def int_arith_trait(I, a, n):
+    ty = _int_ty(n)
+    op = meth(n)
+    if op.endswith("_assign"):
+        cur = a[0].get()
+        r, ov = I.binop({"add_assign": "AddWithOverflow", "sub_assign": "SubWithOverflow"}[op], cur, deref(a[1]), ty)
+        if I.branch_bool(ov):
+            raise Panic("attempt to %s with overflow" % op[:3])
+        a[0].set(r)
+        return UNIT
+    r, ov = I.binop({"add": "AddWithOverflow", "sub": "SubWithOverflow", "mul": "MulWithOverflow"}[op], deref(a[0]), deref(a[1]), ty)
+    if I.branch_bool(ov):
+        raise Panic("attempt to %s with overflow" % op)
+    return r
